@@ -64,8 +64,25 @@ class EvalMixin(object):
             if k.is_const():
                 v = k.value()
                 return int(v) if isinstance(v, Fraction) and v.denominator == 1 else v
-            raise Unsupported('symbolic dictionary key')
+            return k       # symbolic key: lookups go through dict_find (case split on equality)
         return k
+
+    def dict_find(self, d, k):
+        """the key of d equal to k (deciding symbolic equalities by branching), or None"""
+        k = self.hashable(k)
+        sym = isinstance(k, T)
+        if not sym and not any(isinstance(x, T) for x in d):
+            return k if k in d else None
+        for k2 in list(d.keys()):
+            if isinstance(k2, T) or sym:
+                if not (is_num(k2) and is_num(k)):
+                    continue
+                c = self.compare('==', k2, k)
+                if self.branch(c):
+                    return k2
+            elif k2 == k:
+                return k2
+        return None
 
     def e_Lambda(self, n):
         return Closure(n.params, n.body, dict(self.frame.env))
@@ -492,7 +509,7 @@ class EvalMixin(object):
 
     def contains(self, container, x):
         if isinstance(container, dict):
-            return self.hashable(x) in container
+            return self.dict_find(container, x) is not None
         if isinstance(container, (list, tuple, set)):
             acc = False
             for e in container:
@@ -608,10 +625,14 @@ class EvalMixin(object):
         raise Unsupported('%s must be concrete, got %r' % (what, x))
 
     def index_value(self, base, i, line=0):
+        if isinstance(base, PtrTo):
+            if self.concrete_int(i, 'pointer dereference index') != 0:
+                raise Unsupported('pointer arithmetic on a pointer to a single object')
+            return base.target
         if isinstance(base, dict):
-            k = self.hashable(i)
-            if k not in base:
-                self.raise_exc('KeyError', repr(k), line)
+            k = self.dict_find(base, i)
+            if k is None:
+                self.raise_exc('KeyError', repr(i), line)
             return base[k]
         if isinstance(base, (list, tuple)):
             if isinstance(i, T) and not i.is_const():
@@ -684,6 +705,8 @@ class EvalMixin(object):
                 from . import arrays
                 return arrays.address_of(self, base, e.index, n.line)
         v = self.eval(e)
+        if isinstance(v, (list, Obj)):
+            return PtrTo(v)
         return v
 
     def e_Starred(self, n):
